@@ -744,5 +744,13 @@ def r06_20(ctx):
     delegate(ctx, c09.r09_16, lambda c: True)
 
 
+def r06_21(ctx):
+    """R06.21 a range applies under the dependencies of the definition it was written in: _propagate_deps() ANDs the node's full
+    dependency (own `depends on` and parents) into every range condition (C01 R01.4) - with the enclosing dependency alone the
+    range of a definition whose `depends on` is false stays active and the value is clamped to the wrong bounds."""
+    from .common import delegate
+    delegate(ctx, c01.r01_4, lambda c: "ranges" in c)
+
+
 def rules():
-    return [("R06.20", r06_20, 2), ("R06.19", r06_19, 13), ("R06.18", r06_18, 3), ("R06.17", r06_17, 3), ("R06.16", r06_16, 6), ("R06.15", r06_15, 4), ("R06.14", r06_14, 2), ("R06.13", r06_13, 3), ("R06.12", r06_12, 1), ("R06.11", r06_11, 3), ("R06.10", r06_10, 12), ("R06.6", r06_6, 14), ("R06.7", r06_7, 3), ("R06.1", r06_1, 7), ("R06.2", r06_2, 6), ("R06.3", r06_3, 2), ("R06.4", r06_4, 20), ("R06.5", r06_5, 3), ("R06.8", r06_8, 12), ("R06.9", r06_9, 1)]
+    return [("R06.21", r06_21, 1), ("R06.20", r06_20, 2), ("R06.19", r06_19, 13), ("R06.18", r06_18, 3), ("R06.17", r06_17, 3), ("R06.16", r06_16, 6), ("R06.15", r06_15, 4), ("R06.14", r06_14, 2), ("R06.13", r06_13, 3), ("R06.12", r06_12, 1), ("R06.11", r06_11, 3), ("R06.10", r06_10, 12), ("R06.6", r06_6, 14), ("R06.7", r06_7, 3), ("R06.1", r06_1, 7), ("R06.2", r06_2, 6), ("R06.3", r06_3, 2), ("R06.4", r06_4, 20), ("R06.5", r06_5, 3), ("R06.8", r06_8, 12), ("R06.9", r06_9, 1)]
